@@ -12,6 +12,7 @@ All theorems are for ALL id lists `l` (any length, including the empty list) and
 related lists `rel`; nothing is bounded.
 -/
 import BytomModel.Lemmas.Merkle
+import BytomModel.Lemmas.MerkleTamper
 
 namespace BytomModel.Props.C30
 open BytomModel.Merkle BytomModel.Lemmas.Merkle
@@ -164,6 +165,68 @@ theorem tamper_hash_fails (H : HashFns ι α) (G : GoodHash H) (l rel : List ι)
     simp only [List.getElem?_set_self hi, List.getElem?_eq_getElem hi, Option.some.injEq] at this
     exact hne this
 
+/-- for a non-empty list the generated proof is the "side" proof of the whole tree -/
+theorem getProof_eq_side (H : HashFns ι α) (hinj : ∀ x y, H.leafH x = H.leafH y → x = y)
+    (l rel : List ι) (hne : l ≠ []) (hnd : l.Nodup) (hsub : rel.Sublist l) :
+    ∃ t, Built H t l ∧ merkleRoot H l = t.hash ∧ getProof H l rel = side (rel.map H.leafH) t ∧
+      t.leaves.filter (· ∈ rel.map H.leafH) = rel.map H.leafH := by
+  obtain ⟨t, hb, hB, hr⟩ := build_built H l hne
+  have hfil : t.leaves.filter (· ∈ rel.map H.leafH) = rel.map H.leafH := by
+    rw [hB.leaves_eq]
+    exact filter_mem_of_sublist (hsub.map _) (nodup_map_of_inj hinj hnd)
+  refine ⟨t, hB, hr, ?_, hfil⟩
+  unfold getProof
+  rw [hb]
+  by_cases hrel : rel = []
+  · subst hrel
+    simp only [List.map_nil, List.isEmpty_nil, if_true]
+    rw [side_nothing [] t (by simp)]
+  · have hS : (rel.map H.leafH).isEmpty = false := by simp [hrel]
+    simp only [hS]
+    have hpne : (t.proof (rel.map H.leafH)).1 ≠ [] := by
+      intro h
+      have := (proof_nil_iff (rel.map H.leafH) t).1.mp h
+      rw [hfil] at this
+      simp [hrel] at this
+    have hsd : side (rel.map H.leafH) t = t.proof (rel.map H.leafH) := by
+      unfold side; rw [if_neg]; simpa using hpne
+    exact hsd.symm
+
+/-- **Tampered proof flags fail.** Replacing any one flag of the generated proof by any other
+    value makes validation fail.  Besides `GoodHash` this uses that hashes have no cycles
+    (`Ranked`: some rank strictly grows from `a`, `b` to `nodeH a b`); without it the claim is
+    false (`nodeH a b = a` would let `[1,0,0]` be replaced by `[0,0,0]`). -/
+theorem tamper_flag_fails (H : HashFns ι α) (G : GoodHash H) {rk : α → Nat} (hrk : Ranked H rk)
+    (l rel : List ι) (hnd : l.Nodup) (hsub : rel.Sublist l)
+    (i : Nat) (hi : i < (getProof H l rel).2.length) (f' : Nat) (hne : f' ≠ (getProof H l rel).2[i]) :
+    validate H (getProof H l rel).1 ((getProof H l rel).2.set i f') rel (merkleRoot H l) = false := by
+  cases hv : validate H (getProof H l rel).1 ((getProof H l rel).2.set i f') rel (merkleRoot H l) with
+  | false => rfl
+  | true =>
+    exfalso
+    by_cases hl : l = []
+    · subst hl
+      have : rel = [] := List.sublist_nil.mp hsub
+      subst this
+      simp [getProof, build_nil] at hi
+    · obtain ⟨t, hB, hr, hside, hfil⟩ := getProof_eq_side H G.leaf_inj l rel hl hnd hsub
+      unfold validate at hv
+      simp only [Bool.and_eq_true, decide_eq_true_eq, List.isEmpty_iff] at hv
+      have hne' : f' ≠ (getProof H l rel).2.getD i 0 := by
+        rw [List.getD_eq_getElem?_getD, List.getElem?_eq_getElem hi]; exact hne
+      clear hne
+      rw [hside] at hi hne' hv
+      have hS : ∀ y ∈ rel.map H.leafH, ∃ x, H.leafH x = y := by
+        intro m hm; obtain ⟨x, _, hx⟩ := List.mem_map.mp hm; exact ⟨x, hx⟩
+      have hndt : t.leaves.Nodup := by rw [hB.leaves_eq]; exact nodup_map_of_inj G.leaf_inj hnd
+      have key := side_run_tampered G hrk (rel.map H.leafH) hS t l hB hndt
+        (((side (rel.map H.leafH) t).2.set i f').length + 1) [] [] [] i f' (by simp) (by simp) hi hne'
+      rw [hfil] at key
+      simp only [List.append_nil] at key
+      obtain ⟨x, _, hx⟩ := key (by rw [← hr]; exact hv.1)
+      rw [hx] at hv
+      simp at hv
+
 /-- `buildMerkleTree` returns nil exactly for the empty list; in particular the nil-dereference
     branch of the model (`left.hash` on a nil child) is never taken. -/
 theorem build_none_iff (H : HashFns ι α) (l : List ι) : build H l = none ↔ l = [] := by
@@ -188,6 +251,7 @@ theorem prevPowerOfTwo_bounds (n : Nat) (h : 2 ≤ n) : 0 < prevPowerOfTwo n ∧
 /-! ### the hypotheses are satisfiable; tests on literals (tests, not the proof) -/
 
 example : GoodHash freeFns := free_good
+example : Ranked freeFns freeRank := free_ranked
 example : [10, 20, 30, 40, 50].Nodup ∧ [20, 50].Sublist [10, 20, 30, 40, 50] := by decide
 example : validate freeFns (getProof freeFns [10, 20, 30, 40, 50] [20, 50]).1
     (getProof freeFns [10, 20, 30, 40, 50] [20, 50]).2 [20, 50] (merkleRoot freeFns [10, 20, 30, 40, 50]) = true := by decide
